@@ -54,7 +54,7 @@ META = dict(
         quick="worlds U1(2 cascades) U2 U3 U5 U7 U8; histories <= 2 operations after the populated committed root (<= 1 after the other roots), final flush and commit; "
         "every DML statement position x {IntegrityError, OperationalError alternating} + the first SELECT for flush and commit; for flush also every "
         "invocation of the before_* hooks and session hooks and the last invocation of the after_* mapper hooks",
-        thorough="plus U1(all) U4 U5(passive_updates=False); histories <= 3 operations after the populated root with autoflush for 5 worlds (<= 2 elsewhere), every statement position x both exception classes, every hook invocation",
+        thorough="plus U1(all) U4 U5(passive_updates=False); histories <= 3 operations after the populated root with autoflush for 3 worlds (<= 2 elsewhere), every statement position x both exception classes, every hook invocation",
     ),
 )
 
@@ -74,7 +74,7 @@ def world_keys(tier):
 
 
 NPART = 4
-DEEP = (("U1", c30.SU), ("U1", c30.ORPH), ("U3", c30.ORPH), ("U2", c30.ALL), ("U8", c30.ALL))
+DEEP = (("U1", c30.SU), ("U1", c30.ORPH), ("U2", c30.ALL))
 
 
 def shards(tier, seed):
